@@ -18,8 +18,9 @@ PROP = dict(
             "stated as ex_stop_strands; C03/C04). The lq producer does not retry: a database error makes it give the batch up "
             "(visible in the theorem as the [dropped] term, provably empty for hq and for lq runs without database errors). "
             "Real time is not modelled: Tick is a label that may occur at any moment, retry sleeps are state only. "
-            "The finisher stage's routing (fresh -> produce channel, complete -> finish channel) is covered by C01's driver, "
-            "here the channels are fed by the driver like finisher.worker does.",
+            "The finisher stage's hand-over of finished seeds runs through the real finisher workers in about a third of the "
+            "hqflow cases (incl. pause/resume during a DELETE outage); its routing of fresh seeds to the produce channel is "
+            "covered by C01's driver, here the produce channel is fed by the driver (with the postprocessor's own items in the pp cases).",
     assumptions=["Go channels, goroutines, time.Ticker, context: modelled by the labelled transition system, not verified",
                  "gocrawlhq client + encoding/json + net/http: the wire between producer and HQ is exercised on every run against a fake HQ, not modelled (json.Marshal replaces invalid UTF-8 by U+FFFD: see known findings)",
                  "SQLite (ncruces/go-sqlite3): which FRESH rows a LIMITed SELECT returns is an oracle checked for legality; UNIQUE(value) is reported in preference to the PRIMARY KEY violation (checked on every run)",
@@ -29,5 +30,5 @@ PROP = dict(
                "nothing invented, order kept inside batches, bounded fault-free completion with a strictly decreasing measure and "
                "deadlock freedom; over ALL operation sequences of the lq table: no value twice, acknowledgement by id, fields kept; "
                "hop/path round trip for all hop counts. Tied to the code by running the REAL hq.Start goroutines against a fake HQ "
-               "with generated fault sequences (incl. outages: the same request failing 3..6 times in a row), the REAL lq.Start goroutines and the REAL LQClient on scratch SQLite files, every run.",
+               "with generated fault sequences (incl. outages: the same request failing 3..6 times in a row; outlinks made by the real postprocessor for pages behind redirects and for child-asset documents; real finisher workers with pause/resume during an outage), the REAL lq.Start goroutines and the REAL LQClient on scratch SQLite files, every run.",
 )
